@@ -126,7 +126,9 @@ def create_archive(
             [
                 "tar",
                 "czf",  # Create a new archive and use gzip to compress
-                str(output_archive_path),
+                # N.B. tar interprets a relative file name that contains a
+                # colon (e.g., a time stamp) as a file on a remote machine.
+                str(output_archive_path.absolute()),
                 "-C",  # Files to put in the archive are relative to `ctx.output_path`
                 str(ctx.output_path),
                 # Task names may start with a hyphen; make sure the paths are
